@@ -2,6 +2,7 @@ import GdcVerif.Lemmas.RleTotal
 import GdcVerif.Lemmas.ParsersTotal
 import GdcVerif.Lemmas.J2kAlloc
 import GdcVerif.Lemmas.JpegAlloc
+import GdcVerif.Lemmas.J2kTileClamp
 /-!
   C09 — decoding ends within time/memory bounded by input length and declared image size.
 
@@ -66,7 +67,7 @@ theorem c09_jls_allocs (bs : Bytes) (hb : IsBytes bs) :
       a ≤ 8 * ((JlsH.header bs).1.width * (JlsH.header bs).1.height * (JlsH.header bs).1.comps) :=
   JlsH.header_allocs bs hb
 
-/-- (5c) MEMORY, lossless14sv1: with the second frame header rejected (commit FIXME-SOF) every
+/-- (5c) MEMORY, lossless14sv1: with the second frame header rejected (commit 7825a71) every
     allocation up to the first Huffman symbol (segment payloads, Huffman values, the component planes
     allocated by parseSOF3, also by a frame header that is rejected after its extent was read, scan
     buffer, output buffer) is at most len(input), or 65533, or 8·w·h of the decoder's frame header -/
@@ -137,3 +138,29 @@ example : (decodeFrameC { width := 3, height := 2, bitsAllocated := 16, spp := 1
   decide
 
 end Rle
+
+/-! ### JPEG 2000 tile decoder: header-derived buffer sizes (generated kernel of `t2.NewTileDecoder`) -/
+namespace TileClamp
+open Gen.J2kTileClamp
+
+/-- (10) FULL over the generated kernel: whatever SIZ and tile index, the rectangle `NewTileDecoder` stores
+    lies inside the image area [XOsiz, Xsiz) × [YOsiz, Ysiz) and inside one XTsiz × YTsiz cell -/
+theorem c09_tile_rect (tile : Tile) (siz : SIZSegment) (ht : Bool) :
+    let td := NewTileDecoder tile siz ht
+    (siz.XOsiz ≤ td.tileX0 ∧ siz.YOsiz ≤ td.tileY0 ∧ td.tileX1 ≤ siz.Xsiz ∧ td.tileY1 ≤ siz.Ysiz) ∧
+    (td.tileX1 - td.tileX0 ≤ siz.XTsiz ∧ td.tileY1 - td.tileY0 ≤ siz.YTsiz) :=
+  ⟨tile_inside_image tile siz ht, tile_within_cell tile siz ht⟩
+
+/-- (11) every component buffer of `TileDecoder.Decode` (`comp.width·comp.height` entries) is at most the
+    DECLARED image area and at most one tile cell — independent of the position of the image on the
+    reference grid; this is what keeps S-bounded memory for images with large XOsiz/YOsiz -/
+theorem c09_tile_comp_area (tile : Tile) (siz : SIZSegment) (ht : Bool) (dx dy : Int)
+    (hox : 0 ≤ siz.XOsiz) (hoy : 0 ≤ siz.YOsiz) :
+    let td := NewTileDecoder tile siz ht
+    td.tileX0 ≤ td.tileX1 → td.tileY0 ≤ td.tileY1 →
+    compExtent td.tileX0 td.tileX1 dx * compExtent td.tileY0 td.tileY1 dy
+        ≤ (siz.Xsiz - siz.XOsiz) * (siz.Ysiz - siz.YOsiz) ∧
+    compExtent td.tileX0 td.tileX1 dx * compExtent td.tileY0 td.tileY1 dy ≤ siz.XTsiz * siz.YTsiz :=
+  comp_area_le tile siz ht dx dy hox hoy
+
+end TileClamp
